@@ -55,6 +55,10 @@ Subtree(c, i) == {j \in (i + 1)..Len(c) : \A k \in (i + 1)..j : c[k].d > c[i].d}
 (* the unit never returns: it, or a descendant on the same goroutine, blocks *)
 NeverExits(c, k) == \E j \in Subtree(c, k) \cup {k} : c[j].b /\ GoRoot(c, j) = GoRoot(c, k)
 
+GoFails(c, i) == /\ c[i].s = "go"
+                 /\ \/ c[i].x # "ok"
+                    \/ \E k \in Subtree(c, i) : Parent(c, k) = i /\ c[k].s = "defer" /\ c[k].x # "ok"
+
 WFCase(c) ==
   /\ Len(c) >= 1 /\ c[1] \in MainUnit
   /\ \A i \in 2..Len(c) : c[i] \in Unit /\ c[i].d <= c[i - 1].d + 1
@@ -64,10 +68,11 @@ WFCase(c) ==
                     /\ (i = Len(c) \/ c[i + 1].d <= c[GoRoot(c, i)].d)
        /\ NeverExits(c, i) => c[i].x = "ok"                       \* canonical form: the exit is never taken
        /\ c[i].s = "defer" => ~c[i].b /\ \A j \in Subtree(c, i) : c[j].s # "go"
-       \* an error or an unrecovered panic leaving a program goroutine stops the context that
-       \* launched it at an arbitrary point (GoRoutine: parentCtx.goErr, running = false):
-       \* only as the last thing of a case
-       /\ (c[i].s = "go" /\ c[i].x # "ok") => Subtree(c, i) = (i + 1)..Len(c)
+       \* an error or an unrecovered panic leaving a program goroutine - from its function or
+       \* from one of the function's deferred calls - stops the context that launched it at an
+       \* arbitrary point (GoRoutine: parentCtx.goErr, running = false): only as the last thing
+       \* of a case
+       /\ GoFails(c, i) => Subtree(c, i) = (i + 1)..Len(c)
 
 Cases == UNION {{c \in {<<m>> \o t : m \in MainUnit, t \in [1..n -> Unit]} : WFCase(c)} : n \in 0..MaxUnits}
 
